@@ -124,12 +124,12 @@ Ltac solve_form :=
       | apply (cr_val' in_u64); [ exact crem_ul_cr | domt | assumption ]
       | apply dom_quo_val; assumption
       | reflexivity
-      | apply op_mod_ul_wrap; assumption
-      | apply op_mod_u_wrap; assumption
-      | apply op_mod_us_wrap; assumption
+      | (destruct Hp as (Hp & Hfit); rewrite op_mod_ul_wrap by assumption; apply to_i64_id; exact Hfit)
+      | (destruct Hp as (Hp & Hfit); rewrite op_mod_u_wrap by assumption; apply to_i32_id; exact Hfit)
+      | (destruct Hp as (Hp & Hfit); rewrite op_mod_us_wrap by assumption; unfold in_i16 in Hfit; cint'; lia)
       | apply op_mod_Tuc_val; assumption
-      | apply op_mod_d_wrap; assumption
-      | apply op_mod_dx_wrap; assumption
+      | (destruct Hp as (Hp & Hfit & Hrnd); rewrite op_mod_d_wrap by assumption; rewrite to_i64_id by exact Hfit; exact Hrnd)
+      | (destruct Hp as (Hp & Hfit & Hrnd); rewrite op_mod_dx_wrap by assumption; rewrite to_i64_id by exact Hfit; exact Hrnd)
       | (f_equal; apply isDivisor_val) ] ].
 
 Lemma forms_meet_spec : Forall Form_meets_spec forms.
@@ -154,11 +154,8 @@ Definition meets (k : conv) (n d : Z) (out : list Z) : Prop :=
   | KExact, [q] => n = d * q
   | KAbsTr, [w] => exists r, trunc_remainder n d r /\ w = Z.abs r
   | KAbsCr, [w] => exists r, ceil_remainder n d r /\ w = Z.abs r
-  | KTrTo64, [w] => exists r, trunc_remainder n d r /\ w = to_i64 r /\ (in_i64 r -> w = r)
-  | KTrTo32, [w] => exists r, trunc_remainder n d r /\ w = to_i32 r /\ (in_i32 r -> w = r)
-  | KTrTo16, [w] => exists r, trunc_remainder n d r /\ w = to_i16 r /\ (in_i16 r -> w = r)
-  | KTrDbl, [w] => exists r, trunc_remainder n d r /\ w = round53 (to_i64 r)
-  | KTrDblx, [w] => exists r, trunc_remainder n (Z.quot d 16) r /\ w = round53 (to_i64 r)
+  | KTrFit64, [r] | KTrFit32, [r] | KTrFit16, [r] | KTrDbl, [r] => trunc_remainder n d r
+  | KTrDblx, [r] => trunc_remainder n (Z.quot d 16) r
   | KIsDiv, [b] => (b = 1 \/ b = 0) /\ (b = 1 <-> exists k, n = d * k)
   | _, _ => False
   end.
@@ -178,11 +175,11 @@ Proof.
   - destruct Hp as (Hd & q & E). unfold tquo. rewrite (quot_exact n d q Hd E). exact E.
   - exists (trem n d). split; [exists (tquo n d); apply tspec; assumption|reflexivity].
   - exists (crem n d). split; [exists (cquo n d); apply cspec; assumption|reflexivity].
-  - exists (trem n d). split; [exists (tquo n d); apply tspec; assumption|]. split; [reflexivity|apply to_i64_id].
-  - exists (trem n d). split; [exists (tquo n d); apply tspec; assumption|]. split; [reflexivity|apply to_i32_id].
-  - exists (trem n d). split; [exists (tquo n d); apply tspec; assumption|]. split; [reflexivity|intro H; cint'; lia].
-  - exists (trem n d). split; [exists (tquo n d); apply tspec; assumption|reflexivity].
-  - exists (trem n (Z.quot d 16)). split; [exists (tquo n (Z.quot d 16)); apply tspec; assumption|reflexivity].
+  - exists (tquo n d). apply tspec; tauto.
+  - exists (tquo n d). apply tspec; tauto.
+  - exists (tquo n d). apply tspec; tauto.
+  - exists (tquo n d). apply tspec; tauto.
+  - exists (tquo n (Z.quot d 16)). apply tspec; tauto.
   - rewrite <- isDivisor_val. split; [destruct (dom_isDivisor n d); [left|right]; reflexivity|].
     rewrite <- (isDivisor_spec n d). destruct (dom_isDivisor n d); cbn [Z.b2z]; split; intro H; (reflexivity || discriminate || lia).
 Qed.
@@ -444,11 +441,50 @@ Qed.
 Example table_examples :
   List.In (F1 "trem.ul"%string KTr TZ Tu64 trem_ul) forms /\ in_ty Tu64 (W64 - 1) /\ pre KTr (W64 - 2) (W64 - 1) /\
   fsem (F1 "trem.ul"%string KTr TZ Tu64 trem_ul) (W64 - 2) (W64 - 1) = [W64 - 2] /\
-  fsem (F1 "op%.ul"%string KTrTo64 TZ Tu64 op_mod_ul) (W64 - 2) (W64 - 1) = [-2] /\
-  fsem (F1 "mod.ul"%string KEr TZ Tu64 mod_ul) 0 7 = [0] /\ List.length forms = 131%nat /\
+  fsem (F1 "op%.ul"%string KTrFit64 TZ Tu64 op_mod_ul) (W64 - 2) (W64 - 1) = [-2] (* finding: not the remainder *) /\
+  pre KTrFit64 (H64 - 1) (W64 - 1) /\ pre KTrDbl (2 ^ 60) (2 ^ 61) /\ pre KExact 14 (-7) /\
+  fsem (F1 "mod.ul"%string KEr TZ Tu64 mod_ul) 0 7 = [0] /\ List.length forms = 149%nat /\
   round53 (2 ^ 53 + 1) = 2 ^ 53 /\ round53 (2 ^ 53 + 3) = 2 ^ 53 + 4 /\ round53 (- (2 ^ 63 - 1)) = - 2 ^ 63 /\
   dom_isDivisor (-14) (-7) = true /\ dom_divexact (-14) (-7) = 2.
 Proof.
   split; [unfold forms; repeat (first [left; reflexivity | right])|].
-  vm_compute. repeat split; try reflexivity; try discriminate.
+  assert (E : pre KExact 14 (-7)) by (split; [discriminate|exists (-2); reflexivity]).
+  repeat match goal with |- _ /\ _ => split end; try exact E;
+    try (vm_compute; first [reflexivity | discriminate | (split; [discriminate|reflexivity])
+                            | (repeat split; first [discriminate | reflexivity | (intro; discriminate)]) ]).
+Qed.
+
+(* ------------------------------------------------------------------ FINDINGS (phase 4): `%` overloads whose return type cannot
+   hold every truncated remainder do NOT meet the header's "r = a % b: |r| < |b|, a r >= 0" for every divisor of their type.
+   These are the refutations of the property's clause for those overloads; Percent_narrow_wrap_stmt / Percent_double_stmt say
+   what the code returns instead. *)
+Definition Percent_narrow_return_refuted_stmt : Prop :=
+  (exists n d, in_u64 d /\ d <> 0 /\ op_mod_ul n d <> Z.rem n d /\ op_mod_ul n d * n < 0) /\     (* int64_t  operator%(uint64_t) *)
+  (exists n d, in_u32 d /\ d <> 0 /\ op_mod_u n d <> Z.rem n d /\ op_mod_u n d * n < 0) /\       (* int32_t  operator%(uint32_t) *)
+  (exists n d, in_u16 d /\ d <> 0 /\ op_mod_us n d <> Z.rem n d /\ op_mod_us n d * n < 0) /\     (* int16_t  operator%(uint16_t) *)
+  (exists n d, d <> 0 /\ Z.abs d < W64 /\ round53 d = d /\ op_mod_d n d * n < 0) /\              (* double operator%(double), |l| > 2^63 *)
+  (exists n d, d <> 0 /\ Z.abs d < H64 /\ round53 d = d /\ op_mod_d n d = d).                    (* ... and |l| <= 2^63: result = l, not |r| < |l| *)
+Lemma percent_narrow_return_refuted : Percent_narrow_return_refuted_stmt.
+Proof.
+  unfold Percent_narrow_return_refuted_stmt. repeat apply conj.
+  - exists (W64 - 2), (W64 - 1). vm_compute. repeat split; (discriminate || reflexivity || (intro; discriminate)).
+  - exists 3000000000, 4000000000. vm_compute. repeat split; (discriminate || reflexivity || (intro; discriminate)).
+  - exists 40000, 50000. vm_compute. repeat split; (discriminate || reflexivity || (intro; discriminate)).
+  - exists H64, (W64 - 2048). vm_compute. repeat split; (discriminate || reflexivity || (intro; discriminate)).
+  - exists (2 ^ 60 - 1), (2 ^ 60). vm_compute. repeat split; (discriminate || reflexivity || (intro; discriminate)).
+Qed.
+
+(* hypotheses of the conditional theorems are satisfiable (one instance each, at a limit where there is one) *)
+Example phase4_examples :
+  (in_i64 (- H64) /\ - H64 <> 0 /\ 2 ^ 126 = - H64 * (- 2 ^ 63) /\ divexact_l (2 ^ 126) (- H64) = - 2 ^ 63) /\           (* Exact_quot *)
+  (in_u64 (W64 - 1) /\ trunc_remainder (H64 - 1) (W64 - 1) (H64 - 1) /\ in_i64 (H64 - 1) /\ op_mod_ul (H64 - 1) (W64 - 1) = H64 - 1) /\   (* Trunc_rem_when *)
+  (~ (exists k, 7 = -2 * k) /\ ceil_r 7 (-2) = floor_r 7 (-2) + 1 /\ 7 * -2 <= 0 /\ trunc_r 7 (-2) = ceil_r 7 (-2)) /\   (* Roundings_relate *)
+  (dom_isDivisor (W64 * 3) (- W64) = true /\ dom_divexact (W64 * 3) (- W64) = -3).                                     (* IsDivisor_consistent *)
+Proof.
+  repeat match goal with |- _ /\ _ => split end; try (vm_compute; first [reflexivity | discriminate | (split; discriminate) | (intro; discriminate)]).
+  - cint; lia.
+  - cint; lia.
+  - exists 0. unfold is_trunc. cint; lia.
+  - cint; lia.
+  - intros (k & E). lia.
 Qed.
